@@ -25,6 +25,7 @@ package main
 import (
 	"fmt"
 	"go/ast"
+	"os"
 	"sort"
 	"go/constant"
 	"go/token"
@@ -1749,4 +1750,142 @@ func isMutexLike(pk *Pkg, se *ast.SelectorExpr) bool {
 		}
 	}
 	return false
+}
+
+// C09-R12: the worker's combining path folds every row read, once, into the
+// partition the partitioner chose.
+//
+// (*worker).runCombine reads a batch, asks the partitioner for shards[0:n] and
+// then, for i in [0, n), folds row i into the combining frame of partition
+// shards[i].  Decided on the loop whose induction variable runs over [0, n),
+// n the count of that Read: an unconditional statement of its body (before any
+// branch) calls Combine on `combiners[shards[i]]` — single-definition locals
+// expanded — with exactly the one-row view `frame.Slice(i, i+1)` of the frame
+// that was read (bounds compared as linear forms).  Without it rows are
+// dropped before they reach any combiner; with another index they are folded
+// into a partition the partitioner did not choose (the mutation sweep's
+// "delete pcomb.Combine(...)" survived every earlier rule).
+func c09r12(c *RC) {
+	pr := c.P
+	fn := c.MustFn("exec.(*worker).runCombine")
+	if fn == nil {
+		return
+	}
+	fq := fn.QName()
+	le := newLinEnv(pr, fn)
+	expand := func(e ast.Expr) string {
+		t := nospace(e)
+		for depth := 0; depth < 4; depth++ {
+			before := t
+			for o, d := range le.defs {
+				// only aliases of a place are expanded (x := a[i], y := s.f, z := x)
+				switch ast.Unparen(d).(type) {
+				case *ast.IndexExpr, *ast.Ident, *ast.SelectorExpr:
+				default:
+					continue
+				}
+				t = replaceWord(t, o.Name(), nospace(d))
+			}
+			if t == before {
+				break
+			}
+		}
+		return t
+	}
+	n := 0
+	inspectNoLit(fn.Body, func(nd ast.Node) bool {
+		as, ok := nd.(*ast.AssignStmt)
+		if !ok || len(as.Lhs) != 2 || len(as.Rhs) != 1 {
+			return true
+		}
+		k, ok := ast.Unparen(as.Rhs[0]).(*ast.CallExpr)
+		if !ok || !isReaderRead(pr, fn.Pkg, k) {
+			return true
+		}
+		cnt, ok1 := as.Lhs[0].(*ast.Ident)
+		frm, ok2 := ast.Unparen(k.Args[1]).(*ast.Ident)
+		if !ok1 || !ok2 {
+			return true
+		}
+		// the enclosing block: partitioner call and the row loop follow
+		blk := enclosingBlock(fn.Body, as)
+		if blk == nil {
+			return true
+		}
+		shards := ""
+		var loop *ast.ForStmt
+		for _, st := range blk {
+			if st.Pos() < as.Pos() {
+				continue
+			}
+			if es, ok := st.(*ast.ExprStmt); ok {
+				if pk, ok := es.X.(*ast.CallExpr); ok && len(pk.Args) == 4 {
+					if se, ok := pk.Fun.(*ast.SelectorExpr); ok && pr.fieldQName(fn.Pkg.FieldOf(se)) == "exec.Task.Partitioner" {
+						if sl, ok := ast.Unparen(pk.Args[3]).(*ast.SliceExpr); ok {
+							shards = nospace(sl.X)
+						}
+					}
+				}
+			}
+			if fs, ok := st.(*ast.ForStmt); ok && loop == nil && shards != "" {
+				loop = fs
+			}
+		}
+		if loop == nil {
+			return true
+		}
+		n++
+		// induction variable over [0, n)
+		iv := ""
+		if init, ok := loop.Init.(*ast.AssignStmt); ok && len(init.Lhs) == 1 {
+			if z, isC := constInt(fn.Pkg, init.Rhs[0]); isC && z == 0 {
+				iv = expr(init.Lhs[0])
+			}
+		}
+		okBound := false
+		if be, ok := loop.Cond.(*ast.BinaryExpr); ok && iv != "" {
+			okBound = (be.Op == token.LSS && expr(be.X) == iv && expr(be.Y) == cnt.Name) || (be.Op == token.GTR && expr(be.Y) == iv && expr(be.X) == cnt.Name)
+		}
+		folded := false
+		for _, st := range loop.Body.List {
+			if _, isIf := st.(*ast.IfStmt); isIf {
+				break
+			}
+			if _, isBr := st.(*ast.BranchStmt); isBr {
+				break
+			}
+			es, ok := st.(*ast.ExprStmt)
+			if !ok {
+				continue
+			}
+			ck, ok := es.X.(*ast.CallExpr)
+			if !ok || fn.Pkg.CalleeName(ck) != "exec.(*combiningFrame).Combine" || len(ck.Args) != 1 {
+				continue
+			}
+			se := ck.Fun.(*ast.SelectorExpr)
+			recv := strings.NewReplacer("(", "", ")", "").Replace(expand(se.X))
+			// <combiners>[<shards>[<iv>]]
+			okRecv := strings.HasSuffix(recv, "["+shards+"["+iv+"]]")
+			arg, isCall := ast.Unparen(ck.Args[0]).(*ast.CallExpr)
+			okArg := false
+			if isCall && fn.Pkg.CalleeName(arg) == "frame.Frame.Slice" && len(arg.Args) == 2 {
+				if ase, ok := arg.Fun.(*ast.SelectorExpr); ok && nospace(ase.X) == frm.Name {
+					lo, hi := le.norm(arg.Args[0], 0), le.norm(arg.Args[1], 0)
+					wantLo := lin{le.atom(&ast.Ident{Name: iv}): 1}
+					wantHi := lin{le.atom(&ast.Ident{Name: iv}): 1, "": 1}
+					okArg = lo.String() == wantLo.String() && hi.String() == wantHi.String()
+				}
+			}
+			if os.Getenv("BSVET_DEBUG") != "" {
+				fmt.Fprintf(os.Stderr, "c09r12: recv=%q shards=%q iv=%q okRecv=%v okArg=%v okBound=%v\n", recv, shards, iv, okRecv, okArg, okBound)
+			}
+			if okRecv && okArg {
+				folded = true
+			}
+		}
+		c.Check(okBound && folded, fq+"|every-row-read-is-folded-into-its-partition", pr.Pos(loop.Pos()),
+			"runCombine does not fold each row of the batch it read, unconditionally, into the combining frame of the partition the partitioner chose for it (a loop over [0, n) whose body first calls combiners[shards[i]].Combine(frame.Slice(i, i+1))): rows are dropped before they reach a combiner, or are combined under another partition's keys")
+		return true
+	})
+	c.Floor("batch loops in runCombine", n, 1)
 }
